@@ -639,15 +639,37 @@ func runSTALEPTR(c *Ctx) {
 				if fa, ok := addr.(*ssa.FieldAddr); ok {
 					addr = fa.X
 				}
-				p, ok := addr.(*ssa.IndexAddr)
-				if !ok {
+				var p ssa.Instruction
+				var loc string
+				if ia, ok := addr.(*ssa.IndexAddr); ok {
+					ld, ok := ia.X.(*ssa.UnOp)
+					if !ok || ld.Op != token.MUL {
+						continue
+					}
+					p, loc = ia, ir.Sym(ld.X)
+				} else if call, ok := addr.(*ssa.Call); ok {
+					// pe := c.top(): an accessor that returns &S[i]; the pointer is as old as the call
+					_, ret, _, ok := navAccessor(call)
+					if !ok {
+						continue
+					}
+					ia, ok := ret.(*ssa.IndexAddr)
+					if !ok {
+						continue
+					}
+					ld, ok := ia.X.(*ssa.UnOp)
+					if !ok || ld.Op != token.MUL {
+						continue
+					}
+					// the accessor's `c.path`, in the caller's terms
+					full := navSym(call)
+					if i := strings.LastIndex(full, "["); i > 0 {
+						p, loc = call, strings.TrimPrefix(full[:i], "*")
+					}
+				}
+				if p == nil {
 					continue
 				}
-				ld, ok := p.X.(*ssa.UnOp)
-				if !ok || ld.Op != token.MUL {
-					continue
-				}
-				loc := ir.Sym(ld.X)
 				for _, g := range grows {
 					if g.loc != loc || g.st == st {
 						continue
@@ -670,7 +692,7 @@ func runSTALEPTR(c *Ctx) {
 
 // staleBetween: can `use` execute after `grow` without `def` (the IndexAddr)
 // having been executed again in between, although def executed before grow?
-func staleBetween(def *ssa.IndexAddr, grow, use ssa.Instruction) bool {
+func staleBetween(def, grow, use ssa.Instruction) bool {
 	if !ir.InstrReaches(def, grow) {
 		return false
 	}
